@@ -10,8 +10,9 @@ from . import results_kit as kit
 LEVEL = 'model_checking'
 ENGINE = 'E-hist'
 DESIGN_REF = '5/C13'
-TECHNIQUE = ('explicit-state BFS over sequences of read-only operations on real test results: a state is the deep snapshot of the result '
-             'object graph (attribute dictionaries, mapping key sets incl. default dictionaries, arrays as bytes); any state other than '
+TECHNIQUE = ('explicit-state BFS over sequences of read-only operations on real test results: a state is the deep snapshot of the public '
+             'object graph of the result (attribute dictionaries, mapping key sets incl. default dictionaries, arrays as bytes; private '
+             'cache attributes excluded) together with what its accessors answer (verdict, oracles, counts); any state other than '
              'the initial one is a violation; plus every ordered pair of operations and repeated evaluation')
 RULE = ('for each result kind (equal, approx-equal, Student, Bonferroni, Holm-Bonferroni over Student, metadata, statistics of tasks / '
         'tests / tests by labels, failed evaluation) in a passing and a failing instance, on scalar / 1-d / 2-d datasets: BFS from the '
@@ -30,11 +31,38 @@ LEVEL_TEXT = ('For every result kind in a passing and a failing instance the sta
 LEVEL_NOTE = 'deep snapshot as defined in vfw/core/snap.py.'
 
 
+def strip_private(snap):
+    """Drop attributes whose name starts with an underscore (lazily filled caches are not 'recorded statistics'); whether a
+    cache is consistent is observed through the outputs below."""
+    if isinstance(snap, tuple):
+        if len(snap) == 3 and snap[0] == 'obj':
+            return ('obj', snap[1], tuple((k, strip_private(v)) for k, v in snap[2] if not (isinstance(k, str) and k.startswith('_'))))
+        return tuple(strip_private(x) for x in snap)
+    return snap
+
+
+def state_of(res):
+    """State of a result = its public object graph + what its accessors answer."""
+    outs = [('bool', bool(res))]
+    if hasattr(res, 'oracles'):
+        outs.append(('oracles', deepsnap(res.oracles())))
+    for name in ('nb_rejected', 'per_key', 'nb_missing_labels', 'test_pvalue'):
+        if hasattr(res, name):
+            val = getattr(res, name)
+            try:
+                outs.append((name, deepsnap(val() if callable(val) else val)))
+            except Exception as exc:  # pylint: disable=broad-except
+                outs.append((name, 'raises ' + type(exc).__name__))
+    return (strip_private(deepsnap(res)), tuple(outs))
+
+
 def instances(tier):
     out = []
     shapes = [((3,), ((False, False, False),), ((False, True, False),)),
               ((), ((False,),), ((True,),)),
               ((2, 2), ((False,) * 4, (False,) * 4), ((False, True, False, False), (False,) * 4))]
+    # two compared datasets where the first passes everywhere and only the second fails
+    shapes.append(((3,), ((False,) * 3, (False,) * 3), ((False,) * 3, (False, True, False))))
     # special values: a bin with zero errors on both sides and different values (t = -inf), an infinite and a NaN value
     shapes.append(((4,), ((False, 'zeroerr', False, False),), ((False, 'inf', 'nan', True),)))
     if tier == 'thorough':
@@ -112,12 +140,12 @@ def job(inst):
     rep = Report()
     ops = operations()
     _, res0 = make(inst)
-    init = deepsnap(res0)
+    init = state_of(res0)
     verdict0 = bool(make(inst)[1])
     # determinism of evaluate()
     test, _ = make(inst)
     if inst[0] != 'failed':
-        one, two = deepsnap(test.evaluate()), deepsnap(test.evaluate())
+        one, two = state_of(test.evaluate()), state_of(test.evaluate())
         rep.evaluations += 1
         if one != two:
             rep.violate(f'C13|evaluate-not-repeatable|{inst[0]}', f'two evaluations differ: {diff(one, two)}', {'instance': inst})
@@ -139,7 +167,7 @@ def job(inst):
         if not hist:
             return []
         out = []
-        snap = deepsnap(res)
+        snap = state_of(res)
         oper = hist[-1] if err is None else err[0]
         okind = oper.split(':')[0] + (':' + oper.split(':')[1] if oper.startswith('repr') else '')
         if snap != init:
@@ -154,7 +182,7 @@ def job(inst):
         return out
 
     depth = 3
-    bfs.search(run_seq, lambda h, o: ops if o[1] is None else [], lambda o: (deepsnap(o[0]), repr(o[1])[:80]), check, depth, rep,
+    bfs.search(run_seq, lambda h, o: ops if o[1] is None else [], lambda o: (state_of(o[0]), repr(o[1])[:80]), check, depth, rep,
                label=tag, prune_violating=True)
     rep.nontrivial_count += rep.transitions
     for val in rep.violations.values():
@@ -183,10 +211,10 @@ def replay(case):
         return {'note': 're-run ./vf check C13 (BFS case without instance)', 'violates': False}
     inst = (inst[0], tuple(inst[1]) if isinstance(inst[1], (list, tuple)) else inst[1], _tup(inst[2]), _tup(inst[3]))
     _, res = make(inst)
-    init, verdict0 = deepsnap(res), bool(res)
+    init, verdict0 = state_of(res), bool(res)
     for oper in case.get('history', []):
         apply_op(oper, res)
-    after = deepsnap(res)
+    after = state_of(res)
     return {'verdict before': verdict0, 'verdict after': bool(res), 'difference': diff(after, init),
             'violates': after != init or bool(res) != verdict0}
 
